@@ -19,6 +19,8 @@
 #include <amgcl/relaxation/ilu0.hpp>
 #include <amgcl/solver/cg.hpp>
 #include <amgcl/solver/idrs.hpp>
+#include <amgcl/value_type/static_matrix.hpp>
+#include <amgcl/adapter/block_matrix.hpp>
 #include <omp.h>
 #include <functional>
 #include <map>
@@ -118,6 +120,15 @@ int main() {
         std::vector<item> items;
         // ---- bitwise class
         items.push_back({"product", "bitwise", 0, true, [&](vr::digest &d) { auto C = amgcl::backend::product(*Q, *Rm, true); dig_crs(d, *C); return flat(*C); }});
+        // block-valued product (2x2 blocks that do not commute): the side a coefficient multiplies from matters
+        {   typedef amgcl::static_matrix<double, 2, 2> BV; typedef amgcl::backend::crs<BV, ptrdiff_t, ptrdiff_t> bcrs;
+            static std::shared_ptr<bcrs> Qb, Rb;
+            Qb = std::make_shared<bcrs>(amgcl::adapter::block_matrix<BV>(*perturb(vr::random_int(g, 120, 140, 0.06, 4, false), g, false)));
+            Rb = std::make_shared<bcrs>(amgcl::adapter::block_matrix<BV>(*perturb(vr::random_int(g, 140, 100, 0.06, 4, false), g, false)));
+            items.push_back({"product-block2", "bitwise", 0, true, [&](vr::digest &d) { auto C = amgcl::backend::product(*Qb, *Rb, true);
+                d.vec(C->ptr, C->nrows + 1); d.vec(C->col, C->nnz); vec v; v.reserve(C->nnz * 4);
+                for (size_t k = 0; k < C->nnz; ++k) for (int r = 0; r < 2; ++r) for (int c = 0; c < 2; ++c) v.push_back(C->val[k](r, c)); return v; }});
+        }
         items.push_back({"transpose", "bitwise", 0, false, [&](vr::digest &d) { auto C = amgcl::backend::transpose(*Q); dig_crs(d, *C); return flat(*C); }});
         items.push_back({"sum", "bitwise", 0, false, [&](vr::digest &d) { auto C = amgcl::backend::sum(0.3, *Q, 1.7, *Q, true); dig_crs(d, *C); return flat(*C); }});
         items.push_back({"spmv", "bitwise", 0, false, [&](vr::digest &d) { vec y(y0); amgcl::backend::spmv(0.7, *S, f, 0.3, y); return y; }});
